@@ -86,8 +86,11 @@ def rule_b(ctx):
             ctx.ob(R, td.qname, f"{label}: integrates linear functions exactly", mom, "", node)
     ctx.floor(R, 9)
     # integrand and total
-    norms = [norm(c) for c in ast.walk(td.node) if isinstance(c, ast.Call) and norm(c.func) == "np.linalg.norm"]
-    ctx.ob(R, td.qname, "integrand is the Euclidean norm over the last axis of the cell flux", len(norms) == 2 and all(x.endswith(", 2, axis=-1)") for x in norms), str(norms), td.node)
+    ncalls = [c for c in ast.walk(td.node) if isinstance(c, ast.Call) and norm(c.func) == "np.linalg.norm"]
+    norms = [norm(c) for c in ncalls]
+    # canonical spelling: np.linalg.norm(x, axis=-1) (the explicit order 2 is dropped by the canonical form); any other order is not Euclidean
+    eucl = bool(ncalls) and all(len(c.args) == 1 and [(k.arg, norm(k.value)) for k in c.keywords] == [("axis", "-1")] for c in ncalls)
+    ctx.ob(R, td.qname, "integrand is the Euclidean norm over the last axis of the cell flux", eucl and len(norms) in (1, 2), str(norms), td.node)
     am = AM(td)
     loops = [l for l in ast.walk(td.node) if isinstance(l, ast.For)]
     ok = len(loops) == 1 and am.eq(loops[0].iter, "zip(quad_pts, quad_weights)") and am.eq(loops[0].target, "(quad_pt, quad_weight)")
